@@ -2,6 +2,7 @@
 test for the duration of an obligation (LOAD_GLOBAL consults module globals
 before builtins; the code objects are untouched), plus the symbolic regex
 matcher and symbolic character sets."""
+import collections
 import contextlib
 import re
 import re._constants as C
@@ -135,13 +136,19 @@ def sym_isinstance(o, t):
     return _isinstance(o, t)
 
 
-class SymHash:
-    """result of hash() under the 'hash is injective on its argument' assumption"""
+_SYMHASH_IDS = [0]
 
-    __slots__ = ("key",)
 
-    def __init__(self, key):
-        self.key = key
+class SymHash(int):
+    """result of hash() under the 'hash is injective on its argument' assumption.  An int subclass so
+    that CPython accepts it as the return value of __hash__ (its int value is a unique id, which makes
+    caches keyed on it miss); equality is decided on the key terms."""
+
+    def __new__(cls, key):
+        _SYMHASH_IDS[0] += 1
+        o = int.__new__(cls, _SYMHASH_IDS[0])
+        o.key = key
+        return o
 
     def __eq__(self, o):
         if _isinstance(o, SymHash):
@@ -152,11 +159,7 @@ class SymHash:
         r = self.__eq__(o)
         return (not r) if _isinstance(r, _bool) else SymBool(z3.Not(r.e))
 
-    def __hash__(self):
-        raise Unsupported("hash of SymHash")
-
-    def __index__(self):
-        raise Unsupported("SymHash as int")
+    __hash__ = int.__hash__
 
 
 def hash_key(x):
@@ -171,6 +174,10 @@ def hash_key(x):
         return ("fs", tuple(_sorted(_repr(y) for y in x)))
     if core.is_sym(x) or _isinstance(x, (_str, _int, type(None), _bool)):
         return x
+    if _isinstance(x, collections.UserString):
+        return x.data  # hash(UserString) == hash(its data)
+    if _isinstance(x, type) or callable(x) and not hasattr(type(x), "__attr_comparison__"):
+        return ("obj", id(x))
     h = getattr(type(x), "__hash__", None)
     if h is None:
         raise TypeError(f"unhashable type: {type(x).__name__}")
